@@ -146,6 +146,5 @@ def plan(tier):
         for name in SPECS:
             for ns in range(len(NS_MAPS)):
                 for ida in (0, 1):
-                    for ind in (0, 1):
-                        jobs.append(Job("wf", {"spec": name, "ns": ns, "ida": ida, "indent": ind, "slen": 2, "imax": 1000}, 600, 40))
+                    jobs.append(Job("wf", {"spec": name, "ns": ns, "ida": ida, "indent": ns % 2, "slen": 1 if name in ("unions_str", "compound") else 2, "imax": 1000}, 900, 40))
     return jobs
